@@ -272,3 +272,59 @@ func H_C03_nulls() {
 	verif.Assert(eqAnyOrder(got, want), "groups")
 	verif.Reach("end")
 }
+
+// H_C03_having: HAVING on SUM / MIN / COUNT(col) together with WHERE, and
+// ORDER BY over the grouped output.
+func H_C03_having() {
+	n := verif.Choose("rows", maxRows(3, 4)+1)
+	form := verif.Choose("form", 3)
+	verif.Opt("maporder", 1)
+	doc, rows := numTable(n, "k", "v")
+	c, d := verif.F64("c"), verif.F64("d")
+	var sql string
+	switch form {
+	case 0:
+		sql = verif.SQL("SELECT k, SUM(v) AS s FROM t WHERE v > ? GROUP BY k HAVING SUM(v) > ?", c, d)
+	case 1:
+		sql = verif.SQL("SELECT k, MIN(v) AS m, COUNT(v) AS c FROM t GROUP BY k HAVING MIN(v) <= ?", d)
+	case 2:
+		sql = verif.SQL("SELECT k, COUNT(*) AS c FROM t WHERE v > ? GROUP BY k ORDER BY k DESC", c)
+	}
+	got, ok := runQuery(doc, sql)
+	if !ok {
+		return
+	}
+	var kept []Map
+	for _, r := range rows {
+		if form == 1 || f64of(r["v"]) > c {
+			kept = append(kept, r)
+		}
+	}
+	var want []any
+	for _, g := range refGroupBy(kept, "k") {
+		switch form {
+		case 0:
+			s := refSum(g.members, "v").(float64)
+			if s > d {
+				want = append(want, Map{"k": g.key[0], "s": s})
+			}
+		case 1:
+			m := refMin(g.members, "v").(float64)
+			if m <= d {
+				want = append(want, Map{"k": g.key[0], "m": m, "c": len(g.members)})
+			}
+		case 2:
+			want = append(want, Map{"k": g.key[0], "c": len(g.members)})
+		}
+	}
+	if form == 2 {
+		// descending by k (keys are distinct by construction)
+		for i := 1; i < len(want); i++ {
+			for j := i; j > 0 && f64of(want[j].(Map)["k"]) > f64of(want[j-1].(Map)["k"]); j-- {
+				want[j], want[j-1] = want[j-1], want[j]
+			}
+		}
+	}
+	verif.Assert(verif.Eq(got, want), "groups")
+	verif.Reach("end")
+}
